@@ -1273,6 +1273,8 @@ func TrickyShapes() []*Shape {
 			&Shape{Kind: KObject, ID: "Mid", Struct: "P3", Props: []*Prop{p("inner", ref("Leaf")), p("pinner", ref("Leaf")), p("n", &Shape{Kind: KInt})}},
 			&Shape{Kind: KObject, ID: "Leaf", Struct: "P1", Props: []*Prop{{Name: "a", T: &Shape{Kind: KInt}, Default: jsonText(int64(10))}, {Name: "b", T: str(), Default: jsonText("fast")},
 				p("c", &Shape{Kind: KFloat}), p("d", &Shape{Kind: KBool})}}),
+		// a struct-mapped object that refers to itself through a pointer field (Next *P18)
+		scope("Self", &Shape{Kind: KObject, ID: "Self", Struct: "P18", Props: []*Prop{{Name: "v", T: &Shape{Kind: KInt}, Required: true}, p("next", ref("Self"))}}),
 		// a single-property object that reaches itself through a list: nested lists are shorthand at every level
 		scope("L", obj("L", p("e", &Shape{Kind: KList, Items: ref("L")}))),
 		// a finite chain of single-property objects that passes through two DIFFERENT objects with the same ID (the
